@@ -166,12 +166,14 @@ def dyv():
 def limits(draw, m):
     lo, hi = [], []
     for _ in range(m):
-        pat = draw(st.sampled_from(["le", "ge", "two", "eq", "free", "nanl", "nanu", "nannan", "neareq"]))
+        pat = draw(st.sampled_from(["le", "ge", "two", "eq", "free", "nanl", "nanu", "nannan", "neareq", "narrow"]))
         a = draw(dyv())
         w = draw(st.sampled_from([0.125, 0.5, 1.0, 3.0]))
         l, u = {"le": (-math.inf, a), "ge": (a, math.inf), "two": (a, a + w), "eq": (a, a), "free": (-math.inf, math.inf),
                 "nanl": (math.nan, a), "nanu": (a, math.nan), "nannan": (math.nan, math.nan),
-                "neareq": (a, float(np.nextafter(a, math.inf)))}[pat]
+                "neareq": (a, float(np.nextafter(a, math.inf))),
+                # distinct limits, millions of ulps apart but close in everyday terms: still two inequalities
+                "narrow": (a, a + draw(st.sampled_from([2.0 ** -30, 2.0 ** -24, 2.0 ** -17])))}[pat]
         lo.append(l)
         hi.append(u)
     return lo, hi
